@@ -18,7 +18,7 @@ from pathlib import Path
 VERIF = Path(__file__).resolve().parent.parent
 REPO = Path(os.environ.get("VERIF_REPO", "/repo"))
 LEAN = VERIF / "lean"
-WORK = VERIF / ".work"
+WORK = VERIF / "work"
 EVID = VERIF / "evidence"
 REPLAY = VERIF / "replay"
 DRIVER = LEAN / ".lake/build/bin/driver"
